@@ -22,6 +22,17 @@ def encoders():
              "check_kcase_and_hocase", "kcase", lambda tr, n: hist.encode_kcase(tr, n))]
 
 
+def creator_batches(ctx):
+    """many randomly generated initial molecules (no event is run: max_legs = 0): molecules placed across the periodic
+    boundary are rare (1-2 %), and every point mass has to be folded back into the box"""
+    n = ctx.n(300, 2000)
+    base = "config_files/2018_JCP_149_064113/"
+    return [([(base + "dipoles/dipole_motion.ini", {"RandomInputHandler": {"number_of_root_nodes": n}}),
+              (base + "water/single_molecule.ini", {"RandomInputHandler": {"number_of_root_nodes": n}}),
+              ("config_files/hard_disk_dipoles/single_hard_disk_dipole.ini",
+               {"RandomInputHandler": {"number_of_root_nodes": min(n, 40)}})], 0, (ctx.seed, ctx.seed + 1))]
+
+
 def run(ctx, replay_jobs=None):
     hist.run_history_check(
         ctx, "C07", ("C07",), encoders(), TRUSTED, ASSUME,
@@ -29,7 +40,7 @@ def run(ctx, replay_jobs=None):
         "the future, pick is a minimum of the pending events, out-state contract, coverage of the moving chain, "
         "model state == real state); oracle: times never decrease, per-unit continuity within the rounding bound, "
         "inactive units do not move, one chain with conserved speed, positions in the box, identities/charges fixed",
-        replay_jobs=replay_jobs)
+        replay_jobs=replay_jobs, extra_batches=() if replay_jobs else creator_batches(ctx))
 
 
 def replay(ctx, path):
